@@ -66,13 +66,14 @@ Proof. vm_compute. discriminate. Qed.
 (* seeded change "intersection sorts its first argument in place": the mutation-capability analysis then no longer
    establishes System#intersection pure ([sbf_purity] = false for it); the model lets such a native write every shared
    cell reachable from its arguments, and the sandboxed program `intersection(SbArr, [ 1 ])` changes the global array *)
-Definition sb_facts_impure (F : sb_facts) (n : sb_name) : sb_facts :=
+Definition sb_facts_purity (F : sb_facts) (n : sb_name) (b : bool) : sb_facts :=
   {| sbf_exprs := sbf_exprs F; sbf_funcs := sbf_funcs F; sbf_cbguards := sbf_cbguards F; sbf_hidden := sbf_hidden F;
      sbf_hidden_globals := sbf_hidden_globals F; sbf_call_guard := sbf_call_guard F;
      sbf_getfield_checked := sbf_getfield_checked F; sbf_ref_get_checked := sbf_ref_get_checked F;
      sbf_indexer_noinit := sbf_indexer_noinit F; sbf_frame_inherit := sbf_frame_inherit F;
      sbf_userfunc_unsafe := sbf_userfunc_unsafe F; sbf_var_import_checked := sbf_var_import_checked F;
-     sbf_purity := map (fun p => if fst p =? n then (fst p, false) else p) (sbf_purity F) |}.
+     sbf_purity := sb_set_assoc n b (sbf_purity F) |}.
+Definition sb_facts_impure (F : sb_facts) (n : sb_name) : sb_facts := sb_facts_purity F n false.
 Definition sb_n_intersection := Eval vm_compute in sb_enc "System#intersection".
 Definition sb_n_isect := Eval vm_compute in sb_enc "intersection".
 Definition sb_n_SbArr := Eval vm_compute in sb_enc "SbArr".
@@ -87,5 +88,6 @@ Lemma sb_impure_native_writes_reachable :
   nth 1 (sbs_shared (snd (sb_eval (sb_facts_impure sb_cur_facts sb_n_intersection) 6 sb_filter_frame sb_isect_prog sb_isect_st))) []
     <> nth 1 (sbs_shared sb_isect_st) [] /\
   sb_safe_funcs_harmless (sb_facts_impure sb_cur_facts sb_n_intersection) = false /\
-  sb_protected (snd (sb_eval sb_cur_facts 6 sb_filter_frame sb_isect_prog sb_isect_st)) = sb_protected sb_isect_st.
+  sb_protected (snd (sb_eval (sb_facts_purity sb_cur_facts sb_n_intersection true) 6 sb_filter_frame sb_isect_prog sb_isect_st))
+    = sb_protected sb_isect_st.
 Proof. vm_compute. repeat split; try reflexivity. discriminate. Qed.
